@@ -869,7 +869,8 @@ fn ell2_pair<P: Elligator2Config>(cx: &mut Cx, suite: &str, u: P::BaseField) {
 #[derive(Clone, Copy)]
 enum MapPart {
     Structural,
-    Uniform(usize),
+    /// index of the uniform chunk (only distinguishes the item names, hence the PRNG streams)
+    Uniform(#[allow(dead_code)] usize),
 }
 
 fn map_inputs<F: Field>(rng: &mut Rng, args: &Args, part: MapPart, suite: &str, z: F, swu_like: bool) -> Vec<F> {
